@@ -191,7 +191,7 @@ class World(object):
         self.live = {}                  # a -> Conn (built, loss not yet reported)
         self.cur = {}                   # a -> most recently built Conn (live or lost)
         self.shadow = {0: Shadow(), 1: Shadow()}
-        self.next_token = 1
+        self.next_token = {0: 1, 1: 500001}   # per address, so that a history and its one-address projection agree
         self.next_did = 1
         self.reqs = {}                  # did -> request record
         self.depth = 0                  # re-entrancy depth of application callbacks
@@ -428,9 +428,13 @@ class World(object):
             return base + "/" + "x" * 300
         return base
 
+    def _tok(self, a):
+        t = self.next_token[a]
+        self.next_token[a] = t + 1
+        return t
+
     def _api_publish(self, c, qos, retain, size, why="step", tkind="plain", ptype="bytearray"):
-        tok = self.next_token
-        self.next_token += 1
+        tok = self._tok(c.a)
         body = b"~%06d~" % tok + b"p" * max(0, size)
         payload = bytearray(body) if ptype == "bytearray" else body.decode("ascii")
         topic = self._topic(tkind, tok)
@@ -442,8 +446,7 @@ class World(object):
         toks = []
         topics = []
         for k in range(n if shape == "list" else 1):
-            tok = self.next_token
-            self.next_token += 1
+            tok = self._tok(c.a)
             toks.append(tok)
             topics.append((self._topic(tkind, tok) + "/s", (qos + k) % 3))
         if shape == "str":
@@ -458,8 +461,7 @@ class World(object):
     def _api_unsubscribe(self, c, shape, n, tkind="plain"):
         toks, topics = [], []
         for k in range(n if shape == "list" else 1):
-            tok = self.next_token
-            self.next_token += 1
+            tok = self._tok(c.a)
             toks.append(tok)
             topics.append(self._topic(tkind, tok) + "/u")
         args = ((topics[0],), {}) if shape == "str" else ((list(topics),), {})
@@ -747,8 +749,7 @@ class World(object):
 
     def s_inpub(self, a, qos=0, dup=False, retain=False, idsel="new", size=2, tkind="plain"):
         sh = self.shadow[a]
-        tok = self.next_token
-        self.next_token += 1
+        tok = self._tok(a)
         ident = None
         if qos:
             if idsel in ("reuse", "repeat") and sh.inq2 and (idsel == "repeat" or sh.in_last in sh.inq2):
